@@ -1,5 +1,5 @@
 """C16 — a time value denotes the same instant on every path."""
-import datetime
+import datetime, json
 from vlib import hx
 from props import base
 
@@ -9,11 +9,16 @@ THEOREMS = ["C16_unit_spellings_agree", "C16_out_of_range_rejected",
             "C16_civil_roundtrip", "C16_civil_from_days_valid", "C16_civil_of_days_from_civil",
             "C16_parse_print_rfc3339_gen", "C16_parse_print_rfc3339",
             "C16_iso_spellings_agree", "C16_iso_string_agree", "C16_iso_and_integer_agree",
-            "C16_parse_print_date", "C16_date_string_agree"]
+            "C16_parse_print_date", "C16_date_string_agree",
+            "C16_sites_agree", "C16_sites_agree_nonneg", "C16_u64_fallback_wraps_negative",
+            "C16_prune_sound_outside_known", "C16_prune_sound_literal", "C16_prune_refuted"]
 RULE = ("instants (whole second t in year 1..9999 or a digit-band edge, plus a sub-second part) x spellings "
         "(RFC 3339 with random offset/fraction/separator, date-only at midnight, integer s/ms/us/ns as string "
         "and as JSON number, JSON float seconds) plus a malformed stream (mutated spellings); a case is "
-        "non-trivial when the implementation accepted it, distinct by (spelling kind, resulting second)")
+        "non-trivial when the implementation accepted it, distinct by (spelling kind, resulting second); "
+        "call sites: every spelling through payload normaliser / WHERE rows / SINCE rows / planner literal rewriting / "
+        "zone pruner (tsite_all, tsite_payload|where|filter|since|matspec) and (operator x literal x zones of stamps "
+        "around the literal, the epoch and 2^32) through the real TemporalIndexBuilder + TemporalPruner (tsite_prune)")
 ASSUMPTIONS = [
     "chrono 0.4.40's RFC 3339 and %Y-%m-%d parsers are modelled by hand at byte level (ASCII whitespace only); the tie is the differential run",
     "named time zones (chrono-tz) are not modelled",
@@ -22,9 +27,11 @@ ASSUMPTIONS = [
 TRUSTED = [
     "Coq 8.16.1 kernel + coqc; vm_compute for closed witnesses; no native_compute",
     "translator tools/gen_params.py (digit bands, divisors and the division operator of normalize_integer_epoch are read from src/shared/time.rs)",
-    "extraction: ExtrOcamlBasic only; ocaml/driver.ml, conv.ml, p_time.ml (parsing/printing)",
-    "correspondence harness /verif/harness (vharn fn time_str/time_json) built against /repo with --cfg sneldb_verif",
-    "python oracle: datetime arithmetic of CPython (independent of model and implementation)",
+    "extraction: ExtrOcamlBasic only; ocaml/driver.ml, conv.ml, p_time.ml, p_tsite.ml (parsing/printing)",
+    "correspondence harness /verif/harness (vharn fn time_str/time_json, tsite_*) built against /repo with --cfg sneldb_verif; "
+    "condition builders are observed through their Debug rendering (private fields)",
+    "python oracle: datetime arithmetic of CPython (independent of model and implementation); for the pruner: brute-force "
+    "comparison of every stamp of every zone with the literal's instant",
 ]
 
 CLAIMED = True
@@ -153,7 +160,142 @@ def cases(rng, tier):
             else:
                 s = s[:pos] + s[pos:pos + 2] + s[pos:]
         add("malformed", f"time_str {rng.choice(['dt', 'd'])} {hx(s)}", None, s)
+    site_cases(rng.fork("sites"), tier, add, out)
     return out
+
+
+
+# ---------------------------------------------------------------- call sites ("the same instant on every path")
+OPS = ["eq", "gt", "gte", "lt", "lte"]
+U32 = 2 ** 32
+
+
+def _cmp(op, t, v):
+    return {"eq": t == v, "gt": t > v, "gte": t >= v, "lt": t < v, "lte": t <= v, "neq": t != v}[op]
+
+
+def literal_for(t, nanos, rng):
+    """(literal string, expected second or None) — a random spelling of the instant."""
+    r = rng.below(10)
+    if r < 5:
+        return iso(t, nanos, rng), t
+    if r < 6 and t % 86400 == 0:
+        d = EPOCH + datetime.timedelta(seconds=t)
+        return f"{d.year:04d}-{d.month:02d}-{d.day:02d}", t
+    unit, mul = rng.choice([("s", 1), ("s", 1), ("ms", 10 ** 3), ("us", 10 ** 6), ("ns", 10 ** 9)])
+    n = t * mul + nanos // (10 ** 9 // mul)
+    return str(n), (t if band(n) == unit else None)
+
+
+def zones_around(v, rng):
+    """1..5 zones of 1..4 stamps each; in-calendar zones span at most ~40 days (the calendar loops per hour)."""
+    zs = []
+    for zid in range(rng.range(1, 5)):
+        anchor = rng.choice([v, v, v, 0, 0, U32, rng.range(0, 5 * 10 ** 9), -rng.range(1, 10 ** 6)])
+        if anchor is None:
+            anchor = 0
+        spread = rng.choice([0, 1, 59, 3600, 86400, 40 * 86400])
+        stamps = []
+        for _ in range(rng.range(1, 4)):
+            off = rng.choice([0, 0, 1, -1, rng.range(-spread, spread) if spread else 0])
+            stamps.append(anchor + off)
+        if rng.chance(1, 12):
+            stamps.append(-rng.range(1, 100))           # a pre-epoch straggler
+        zs.append([zid, stamps])
+    return zs
+
+
+def site_cases(rng, tier, add, out):
+    n = 300 if tier == "quick" else 20000
+    lo = -62135596800 + 2 * 86400
+    hi = 253402300799 - 2 * 86400
+    edges = [0, -1, 1, -86400, 86399, U32 - 1, U32, U32 + 86400, 2 ** 31, 10 ** 11 - 1, -100000001, 1700000000, lo, hi]
+    ftypes = ["dt", "d", "odt", "od"]
+    for k in range(n):
+        r = rng.below(10)
+        if r < 2:
+            t = rng.choice(edges)
+        elif r < 6:
+            t = rng.range(-10 ** 6, 5 * 10 ** 9)
+        elif r < 7:
+            t = rng.range(lo, hi)
+        else:
+            t = rng.range(0, 4 * 10 ** 9)
+        nanos = rng.choice([0, 0, 500000000, rng.below(10 ** 9)])
+        # -- every site on the same literal
+        for _ in range(2):
+            lit, exp = literal_for(t, nanos, rng)
+            if rng.chance(1, 5):
+                lit = rng.choice([" ", "\t", ""]) + lit + rng.choice([" ", "\n", ""])
+            add("site_all", f"tsite_all {hx(lit)}", exp, lit)
+        # -- one site, JSON-typed values
+        lit, exp = literal_for(t, nanos, rng)
+        ft = rng.choice(ftypes)
+        js = json.dumps(lit, ensure_ascii=False)
+        out.append({"kind": "site_payload", "line": f"tsite_payload {ft} {hx(js)}", "expect": None, "show": f"{ft} {js}",
+                    "expect_out": None if exp is None else f"S {exp}"})
+        out.append({"kind": "site_filter", "line": f"tsite_filter {ft} {hx(js)}", "expect": None, "show": f"{ft} {js}",
+                    "expect_out": None if exp is None else f"I {exp}"})
+        out.append({"kind": "site_since", "line": f"tsite_since {hx(lit)}", "expect": None, "show": lit,
+                    "expect_out": None if exp is None else f"NUM {exp} | U {hx(lit)}"})
+        if rng.chance(1, 2):
+            # JSON numbers: payload normalises by band; WHERE / planner take epoch seconds as they are
+            mul = rng.choice([1, 1, 10 ** 3, 10 ** 6, 10 ** 9])
+            nnum = t * mul
+            if -2 ** 63 <= nnum < 2 ** 63:
+                unit = {1: "s", 10 ** 3: "ms", 10 ** 6: "us", 10 ** 9: "ns"}[mul]
+                out.append({"kind": "site_payload_num", "line": f"tsite_payload {ft} {hx(str(nnum))}", "expect": None,
+                            "show": f"{ft} {nnum}", "expect_out": f"S {t}" if band(nnum) == unit else None})
+                out.append({"kind": "site_where_num", "line": f"tsite_where {hx(str(nnum))}", "expect": None,
+                            "show": str(nnum), "expect_out": f"NUM {nnum}"})
+                out.append({"kind": "site_filter_num", "line": f"tsite_filter {ft} {hx(str(nnum))}", "expect": None,
+                            "show": f"{ft} {nnum}", "expect_out": f"I {nnum}"})
+        if rng.chance(1, 6):
+            j = rng.choice(["null", "true", "false", "[1]", "{}", "1.5", "-0.25", "1e3", "18446744073709551615",
+                            "9223372036854775808", json.dumps("abc"), json.dumps(""), json.dumps("12:00")])
+            opt = ft in ("odt", "od")
+            eo = None
+            if j == "null":
+                eo = "NULL" if opt else "E"
+            elif j in ("true", "false", "[1]", "{}", '"abc"', '""', '"12:00"'):
+                eo = "E"
+            out.append({"kind": "site_payload_other", "line": f"tsite_payload {ft} {hx(j)}", "expect": None, "show": f"{ft} {j}", "expect_out": eo})
+            out.append({"kind": "site_payload_other", "line": f"tsite_payload str {hx(j)}", "expect": None, "show": f"str {j}", "expect_out": None})
+            out.append({"kind": "site_where_other", "line": f"tsite_where {hx(j)}", "expect": None, "show": j, "expect_out": None})
+            out.append({"kind": "site_filter_other", "line": f"tsite_filter {rng.choice(ftypes + ['str'])} {hx(j)}", "expect": None, "show": j, "expect_out": None})
+            out.append({"kind": "site_payload_other", "line": f"tsite_payload {ft} -", "expect": None, "show": f"{ft} absent", "expect_out": "A"})
+        # -- the zone pruner over the real temporal artifacts
+        for _ in range(2):
+            lit, exp = literal_for(t, nanos, rng)
+            col = "t"
+            zones = zones_around(exp if exp is not None else t, rng)
+            if rng.chance(1, 6):
+                col = "timestamp"
+                zones = [[z, [x for x in st if x >= 0] or [0]] for z, st in zones]   # core timestamps are u64
+            op = rng.choice(OPS + OPS + ["neq"])
+            if rng.chance(1, 4) and exp is not None and -2 ** 63 <= exp < 2 ** 63:
+                kind_, l2, v = "i", str(exp), exp          # the literal after the planner's rewriting
+            else:
+                kind_, l2, v = "s", lit, exp
+            ztxt = ";".join(f"{z}:{','.join(str(x) for x in st)}" for z, st in zones)
+            out.append({"kind": "site_prune", "line": f"tsite_prune {col} {op} {kind_} {hx(l2)} {ztxt}", "expect": None,
+                        "show": f"{col} {op} {l2!r} zones={ztxt}", "op": op, "v": v, "zones": zones, "since_sem": False, "lit": l2})
+        if rng.chance(1, 8):
+            # SINCE with a literal that no site can parse: the row filter ignores it, so every zone must stay
+            bad = rng.choice(["abc", "", "10000000000000000000", "18446744073709551615", "18446744073709551616", "12:00", "2024-13-01"])
+            zones = zones_around(t, rng)
+            ztxt = ";".join(f"{z}:{','.join(str(x) for x in st)}" for z, st in zones)
+            out.append({"kind": "site_prune_since", "line": f"tsite_prune t gte s {hx(bad)} {ztxt}", "expect": None,
+                        "show": f"SINCE {bad!r} zones={ztxt}", "op": "gte", "v": None, "zones": zones, "since_sem": True, "lit": bad})
+            add("site_all", f"tsite_all {hx(bad)}", None, bad)
+        # -- materialised query delta
+        if rng.chance(1, 3):
+            lit, exp = literal_for(t, nanos, rng)
+            base_ = exp if exp is not None else t
+            wm = max(0, rng.choice([base_ - 1, base_, base_ + 1, 0, 1, rng.range(0, 5 * 10 ** 9)]))
+            eid = rng.choice([0, 7])
+            out.append({"kind": "site_matspec", "line": f"tsite_matspec {hx(lit)} {wm} {eid}", "expect": None,
+                        "show": f"since={lit!r} watermark=({wm},{eid})", "v": exp, "wm": wm, "eid": eid, "lit": lit})
 
 
 def run_sides(cases_, model_ok):
@@ -164,26 +306,151 @@ def same(c, impl, model):
     return impl == model
 
 
+def _zone_set(impl):
+    if impl is None or impl == "NONE" or impl == "Z -":
+        return set()
+    if impl.startswith("Z "):
+        return set(int(x) for x in impl[2:].split(","))
+    return None
+
+
+def _lost_zones(c, impl):
+    """Zones holding a stamp that satisfies the comparison but missing from the pruner's answer
+    (an answer of NONE makes the field selector return no zone at all)."""
+    got = _zone_set(impl)
+    if got is None:
+        return None
+    op, v = c["op"], c["v"]
+    if v is None:
+        if not c.get("since_sem"):
+            return []
+        truth = [z for z, st in c["zones"]]                 # ignored SINCE: every row matches
+    else:
+        truth = [z for z, st in c["zones"] if any(_cmp(op, x, v) for x in st)]
+    return [z for z in truth if z not in got]
+
+
+def _site_all_fields(impl):
+    try:
+        return dict(f.split("=", 1) for f in impl.split(";"))
+    except Exception:
+        return None
+
+
+def _num(tok, tags):
+    p = tok.split(" ")
+    if len(p) == 2 and p[0] in tags:
+        try:
+            return int(p[1])
+        except ValueError:
+            return None
+    return None
+
+
 def oracle(c, impl):
-    """Direct property oracle: a spelling of instant t that lies in its band must be stored as floor(t)."""
+    """Direct property oracle: a spelling of instant t that lies in its band must be stored as floor(t);
+    every call site must read a literal as the same second; the zone pruner must keep every zone that
+    holds an event whose stored instant satisfies the comparison."""
+    kind = c.get("kind", "")
+    if impl in ("PANIC", "ABORT"):
+        return f"implementation {impl} on {c.get('show')!r}"
+    if kind == "site_all":
+        f = _site_all_fields(impl)
+        if not f or set(f) != {"PDT", "PD", "W", "SN", "F", "PR"}:
+            return f"unreadable site report {impl!r}"
+        vals = [_num(f["PDT"], ("S",)), _num(f["PD"], ("S",)), _num(f["W"], ("NUM",)), _num(f["SN"], ("NUM",)), _num(f["F"], ("I",))]
+        if all(v is None for v in vals):
+            rejected = f["PDT"] == "E" and f["PD"] == "E" and f["W"] == "STR" and f["SN"] == "IGN" and f["F"].startswith("U")
+            if not rejected:
+                return f"sites disagree on the unparsable literal {c.get('show')!r}: {impl}"
+            if c.get("expect") is not None:
+                return f"every site rejected the spelling {c.get('show')!r} of second {c['expect']}"
+            return None
+        if any(v is None for v in vals) or len(set(vals)) != 1:
+            return f"sites disagree on the literal {c.get('show')!r}: {impl}"
+        v = vals[0]
+        if c.get("expect") is not None and v != c["expect"]:
+            return f"spelling {c.get('show')!r} of second {c['expect']} was read as {v} by every site"
+        if f["PR"] != str(v):
+            return f"the zone pruner looks up instant {f['PR']} for the literal {c.get('show')!r} that every other site reads as {v}"
+        return None
+    if kind in ("site_prune", "site_prune_since"):
+        lost = _lost_zones(c, impl)
+        if lost is None:
+            return f"unreadable pruner answer {impl!r}"
+        if lost:
+            return (f"the pruner answered {impl} and so drops zone(s) {lost} that hold events satisfying "
+                    f"{c['op']} {c['lit']!r} (= second {c['v']}): {c.get('show')}")
+        return None
+    if kind == "site_matspec":
+        v, wm, eid = c["v"], c["wm"], c["eid"]
+        if v is None or (wm == 0 and v < 0):
+            return None
+        keep_tok = "S " + hx(c["lit"])
+        upd_tok = "S " + hx(str(wm))
+        if wm == 0 and eid == 0:
+            want = keep_tok
+        else:
+            want = upd_tok if v < wm else keep_tok
+        if impl != want and not (keep_tok == upd_tok):
+            return f"delta command of SINCE {c['lit']!r} (second {v}) with watermark {wm} has SINCE {impl}, expected {want}"
+        return None
+    if "expect_out" in c:
+        eo = c["expect_out"]
+        if eo is not None and impl != eo:
+            return f"{c['line'].split(' ')[0]} on {c.get('show')!r} gave {impl}, the property requires {eo}"
+        return None
     exp = c.get("expect")
     if exp is None:
-        if impl in ("PANIC", "ABORT"):
-            return f"implementation {impl} on {c.get('show')!r}"
         return None
     if impl != f"S {exp}":
         return f"spelling {c.get('show')!r} of the instant with floor second {exp} was normalised to {impl}"
     return None
 
 
+def _u64(lit):
+    s = lit[1:] if lit.startswith("+") and len(lit) > 1 else lit
+    if s.isascii() and s.isdigit() and int(s) < 2 ** 64:
+        return int(s)
+    return None
+
+
 def classify(c, impl):
+    kind = c.get("kind", "")
     # a JSON integer literal below i64::MIN is kept by serde_json as f64 and then read as float SECONDS
-    if c.get("kind", "").startswith("jint") and int(c["show"]) < -2 ** 63:
+    if kind.startswith("jint") and int(c["show"]) < -2 ** 63:
         return "JsonIntegerBelowI64ReadAsFloatSeconds"
+    if kind == "site_all":
+        f = _site_all_fields(impl) or {}
+        v = _num(f.get("PDT", ""), ("S",))
+        if v is not None and v < 0 and f.get("PR") == "0":
+            return "NegativeInstantClampedByPruner"
+        return None
+    if kind in ("site_prune", "site_prune_since"):
+        lost = _lost_zones(c, impl) or []
+        stamps = {z: st for z, st in c["zones"]}
+        if c["op"] == "neq":
+            return "TemporalNeqPrunesAllZones"
+        if c["v"] is None:
+            u = _u64(c["lit"])
+            if u is not None and u >= 2 ** 63:
+                return "UnparsableSinceU64WrapsNegative"
+        if lost and all(any(x < 0 for x in stamps[z]) for z in lost):
+            return "PreEpochZoneNotInCalendar"
+        if c["v"] is not None and c["v"] < 0:
+            return "NegativeInstantClampedByPruner"
+        if (c["v"] is not None and c["v"] >= U32) or any(x >= U32 for z in lost for x in stamps[z]):
+            return "CalendarBucketWrapsAfter2106"
+        return None
     return None
 
 
 def nontrivial_key(c, impl):
+    kind = c.get("kind", "")
+    if kind.startswith("site_"):
+        if impl and impl not in ("NONE", "E", "N", "PANIC", "ABORT", "UNKNOWN_PROBE") and not impl.startswith("PDT=E"):
+            return (kind, c.get("op"), impl[:80])
+        return None
     if impl and impl.startswith("S "):
         return (c["kind"], impl)
     return None
